@@ -2,6 +2,7 @@ import Driver.Container
 import Driver.RowPipe
 import Driver.Anim
 import Driver.Opts
+import Driver.VP8L
 /-
   webpdrv — line protocol: one operation per input line (`op arg arg …`), one canonical
   output line per operation.  Unknown or malformed operations answer `bad-op` (never a default).
@@ -11,7 +12,8 @@ def dispatch (line : String) : String :=
   | [] => "bad-op"
   | op :: args =>
     match (Driver.Container.handle op args <|> Driver.RowPipe.handle op args
-           <|> Driver.Anim.handle op args <|> Driver.Opts.handle op args) with
+           <|> Driver.Anim.handle op args <|> Driver.Opts.handle op args
+           <|> Driver.VP8L.handle op args) with
     | some r => r
     | none => "bad-op"
 
